@@ -72,10 +72,31 @@ def generate(rng, tier="quick"):
     if mode in ("finish", "both"):
         steps += gen.gen_lifecycle(rng, 0, 2, rng.choice([0.0, 0.5]))
         steps.append({"op": "craft", "dst": 0, "label": "peer", "body": body})
+    # dense windows over the encodings of small instances: every (y, sign) of a toy curve up
+    # to 4Q in windows of 64 stratified on the run index; every 1-byte string of a 1-byte field
+    g = worlds.model_group(gspec)
+    idx = getattr(rng, "idx", rng.randrange(1 << 20))
+    if gspec["kind"] == "toyed" and rng.random() < 0.5:
+        y0 = (idx * 64) % (4 * g.Q)
+        for y in range(y0, y0 + 64):
+            for sign in (0, 1):
+                steps.append({"op": "decode", "pset": 0,
+                              "body": {"kind": "hex", "hex": (y | (sign << 255)).to_bytes(32, "little").hex()}})
+        scan = "toy-window"
+    elif g.kind == "int" and g.elem_size == 1 and rng.random() < 0.5:
+        for v in range(256):
+            steps.append({"op": "decode", "pset": 0, "body": {"kind": "hex", "hex": "%02x" % v}})
+        steps.append({"op": "decode", "pset": 0, "body": {"kind": "hex", "hex": ""}})
+        scan = "one-byte-field-all"
+    else:
+        scan = None
     # a few more strings against the decoder in the same run
     for _ in range(rng.choice([0, 0, 1, 3])):
         steps.append({"op": "decode", "pset": 0, "body": gen_body(rng, gspec)})
-    return {"property": PROP, "config": cfg, "steps": steps}
+    scn = {"property": PROP, "config": cfg, "steps": steps}
+    if scan:
+        scn["intent"] = {"scan": scan}
+    return scn
 
 
 class Oracle(Hooks):
@@ -115,6 +136,8 @@ class Oracle(Hooks):
                               group=gk, via=via)
             return
         w.probe("reject:" + reason)
+        if w.scn.get("intent", {}).get("scan"):
+            w.probe("scan:" + w.scn["intent"]["scan"])
         if accepted:
             self.flag(w, "accepted-malformed",
                       "%s accepted a %d-byte string that is not the canonical encoding of a subgroup element (%s): %s"
